@@ -286,6 +286,65 @@ impl<const W: u8> std::fmt::Debug for Big<W> {
     }
 }
 
+/// Over-aligned tracked element (64 bytes, aligned to 64: stricter than any minimum alignment and
+/// than the 16 bytes chunks are aligned to).
+#[repr(C, align(64))]
+pub struct Wide<const W: u8> {
+    pub t: Tr<W>,
+    pub pad: [u64; 2],
+}
+impl<const W: u8> Wide<W> {
+    pub fn new(id: u32, tag: u32) -> Self {
+        Wide { t: Tr::new(id, tag), pad: [id as u64 ^ 0x3333_3333_3333_3333; 2] }
+    }
+    pub fn intact(&self) -> bool {
+        self.pad == [self.t.id as u64 ^ 0x3333_3333_3333_3333; 2] && (self as *const Self as usize) % 64 == 0
+    }
+}
+impl<const W: u8> Clone for Wide<W> {
+    fn clone(&self) -> Self {
+        let t = self.t.clone();
+        let id = t.id;
+        Wide { t, pad: [id as u64 ^ 0x3333_3333_3333_3333; 2] }
+    }
+}
+impl<const W: u8> PartialEq for Wide<W> {
+    fn eq(&self, o: &Self) -> bool {
+        self.t == o.t
+    }
+}
+impl<const W: u8> std::fmt::Debug for Wide<W> {
+    fn fmt(&self, f: &mut std::fmt::Formatter) -> std::fmt::Result {
+        write!(f, "W{}:{}", self.t.id, self.t.tag)
+    }
+}
+impl<const W: u8> std::hash::Hash for Wide<W> {
+    fn hash<H: std::hash::Hasher>(&self, h: &mut H) {
+        self.t.hash(h)
+    }
+}
+impl<const W: u8> serde::Serialize for Wide<W> {
+    fn serialize<S: serde::Serializer>(&self, s: S) -> Result<S::Ok, S::Error> {
+        s.serialize_u32(self.t.tag)
+    }
+}
+impl<const W: u8> Elem for Wide<W> {
+    const WORLD: u8 = W;
+    const TRACKED: bool = true;
+    fn mk(id: u32, tag: u32) -> Self {
+        Wide::new(id, tag)
+    }
+    fn eid(&self) -> u32 {
+        self.t.id
+    }
+    fn etag(&self) -> u32 {
+        self.t.tag
+    }
+    fn intact(&self) -> bool {
+        Wide::intact(self)
+    }
+}
+
 /// Zero-sized element: counted, not identified.
 pub struct Zt<const W: u8>;
 impl<const W: u8> Zt<W> {
